@@ -63,6 +63,21 @@ pub mod verif {
             }
         });
     }
+
+    /// number of Commit events logged since `start`
+    pub fn commits() -> usize {
+        LOG.with(|l| {
+            l.borrow().as_ref().map_or(0, |log| {
+                log.iter()
+                    .rev()
+                    .find_map(|e| match e {
+                        Event::Commit { depth, .. } => Some(*depth as usize + 1),
+                        _ => None,
+                    })
+                    .unwrap_or(0)
+            })
+        })
+    }
 }
 
 #[derive(Default)]
